@@ -9,12 +9,16 @@
      * predict / predict_expectations before the first fit.
      * linear policies: a partial_fit with another context width is rejected from inside training by the first arm that has
        rows and leaves the policy and the bandit Leibniz-equal (C17Lin);
-    ..._partial: linear policies and Clusters over linear policies can raise from np.linalg.inv inside a per-arm
+     * linear policies with l2_lambda > 0 (scale=False, ordered-field laws; LinPD.v, LinPDFacade.v): in every state a history of facade calls
+       reaches, every per-arm matrix is lambda*I or lambda*I + X'X for rows X of the fitted width; such a matrix is never singular (C02), so
+       training on a rectangular context array never raises from inside a per-arm task, and EVERY rejected fit / partial_fit of a linear
+       bandit leaves it Leibniz-equal to what it was (rejected_linear_training_call_changes_nothing);
+    ..._partial: for l2_lambda = 0 linear policies, and Clusters over linear policies, can raise from np.linalg.inv inside a per-arm
     task after earlier arms were updated - for l2_lambda = 0 only: for l2_lambda > 0 the matrix is never singular (C02,
     ridge_fits_never_singular); the branch is modelled, and for l2_lambda = 0 the property is REFUTED on the model with a concrete witness
     (finding D22, reproduced on the code: LinAlgError after the first arm was refitted). Ill-typed arguments are outside the model and covered by the 19-class relation. *)
 From Coq Require Import List ZArith Bool Arith QArith Qcanon Permutation.
-From MW Require Import Num Assoc AssocFacts Rng Par CF CFInv CFClean CFForget CFSpec Matrix Lin Warm WarmInv Nbr NbrFacts NbrIndep LshFacts Clu Tree CellFacts Mab FacadeCF FacadeArms MoreFacts NumLaws CFAlg Sim Extra QcInst OrderFacts ExpIrrel LinInv FacadeLin LpInv NbrInv CluTreeInv FacadeAll ToyFacts C09All C10All LinForget LinSim MatrixFacts GaussJordan LinSpec NbrIndepGen CluIndep C17Lin WarmIdem C14More LshScale TreeLeaf Rename PopSpec CopyFacts StatFacts CluBatch LinWarm C17Singular.
+From MW Require Import Num Assoc AssocFacts Rng Par CF CFInv CFClean CFForget CFSpec Matrix Lin Warm WarmInv Nbr NbrFacts NbrIndep LshFacts Clu Tree CellFacts Mab FacadeCF FacadeArms MoreFacts NumLaws CFAlg Sim Extra QcInst OrderFacts ExpIrrel LinInv FacadeLin LpInv NbrInv CluTreeInv FacadeAll ToyFacts C09All C10All LinForget LinSim MatrixFacts GaussJordan LinSpec NbrIndepGen CluIndep C17Lin WarmIdem C14More LshScale TreeLeaf Rename PopSpec CopyFacts StatFacts CluBatch LinWarm C17Singular LinPD LinPDFacade.
 Import ListNotations.
 
 Theorem C17_rejected_arm_or_warm_start_call_changes_nothing :
@@ -83,4 +87,98 @@ Theorem C17_rejected_singular_partial_fit_at_l2_zero_refuted :
 Proof. exact @rejected_singular_partial_fit_refuted. Qed.
 Print Assumptions C17_rejected_singular_partial_fit_at_l2_zero_refuted.
 
+Theorem C17_rejected_linear_training_call_changes_nothing_for_positive_lambda :
+  forall (R A G : Type) (N : Num R),
+  NumLaws N ->
+  forall (aeqb : A -> A -> bool) (RG : RngOps R G),
+  (forall x y : A, aeqb x y = true <-> x = y) ->
+  forall (m : (@mab R A G)) (s : (@lin R A G)) (ds : list A) (rs : list R) (cx : option (@ctxs R)) (orc : (@oracle R A)),
+  m_imp m = ILin s ->
+  lin_mab_inv N m ->
+  rect cx ->
+  (snd (step N aeqb RG m (Fit ds rs cx orc)) = ORejected ->
+   fst (step N aeqb RG m (Fit ds rs cx orc)) = m) /\
+  (snd (step N aeqb RG m (PartialFit ds rs cx orc)) = ORejected ->
+   fst (step N aeqb RG m (PartialFit ds rs cx orc)) = m).
+Proof. exact @rejected_linear_training_call_changes_nothing. Qed.
+Print Assumptions C17_rejected_linear_training_call_changes_nothing_for_positive_lambda.
+
+Theorem C17_linear_invariant_on_every_history :
+  forall (R A G : Type) (N : Num R),
+  NumLaws N ->
+  forall (aeqb : A -> A -> bool) (RG : RngOps R G),
+  (forall x y : A, aeqb x y = true <-> x = y) ->
+  forall (ops : list (@op R A)) (m : (@mab R A G)) (s : (@lin R A G)),
+  Forall op_rect ops ->
+  m_imp m = ILin s -> lin_inv N (m_fitted m) s -> lin_mab_inv N (state_after N aeqb RG m ops).
+Proof. exact @run_preserves_lin_inv. Qed.
+Print Assumptions C17_linear_invariant_on_every_history.
+
+Theorem C17_constructed_linear_bandit_satisfies_the_invariant :
+  forall (R A G : Type) (N : Num R) (m : (@mab R A G)) (k : regkind) (alpha eps l2 : R) 
+    (kf : bool) (arms : list A),
+  NoDup arms ->
+  ltb N (zero N) l2 = true ->
+  m_imp m = ILin (lin_init N k alpha eps l2 false kf arms) -> m_fitted m = false -> lin_mab_inv N m.
+Proof. exact @constructed_linear_bandit_inv. Qed.
+Print Assumptions C17_constructed_linear_bandit_satisfies_the_invariant.
+
+Theorem C17_linear_fit_never_raises_for_positive_lambda :
+  forall (R A G : Type) (N : Num R),
+  NumLaws N ->
+  forall aeqb : A -> A -> bool,
+  (forall x y : A, aeqb x y = true <-> x = y) ->
+  forall (s : (@lin R A G)) (g : G) (ds : list A) (rs : list R) (cx : (@mat R)),
+  ltb N (zero N) (l_l2 s) = true ->
+  lin_keys_ok s ->
+  l_scale s = false ->
+  uniform_width (ncols cx) cx ->
+  snd (lin_fit N aeqb s g ds rs cx) = true /\
+  lin_pd N (fst (lin_fit N aeqb s g ds rs cx)) /\
+  l_nf (fst (lin_fit N aeqb s g ds rs cx)) = Some (ncols cx) /\
+  l_l2 (fst (lin_fit N aeqb s g ds rs cx)) = l_l2 s.
+Proof. exact @lin_fit_never_fails. Qed.
+Print Assumptions C17_linear_fit_never_raises_for_positive_lambda.
+
+Theorem C17_linear_partial_fit_never_raises_for_positive_lambda :
+  forall (R A G : Type) (N : Num R),
+  NumLaws N ->
+  forall aeqb : A -> A -> bool,
+  (forall x y : A, aeqb x y = true <-> x = y) ->
+  forall (s : (@lin R A G)) (g : G) (ds : list A) (rs : list R) (cx : (@mat R)) (d : nat),
+  ltb N (zero N) (l_l2 s) = true ->
+  lin_keys_ok s ->
+  lin_pd N s ->
+  l_nf s = Some d ->
+  uniform_width d cx ->
+  snd (lin_partial_fit N aeqb s g ds rs cx) = true /\
+  lin_pd N (fst (lin_partial_fit N aeqb s g ds rs cx)) /\
+  l_nf (fst (lin_partial_fit N aeqb s g ds rs cx)) = Some d /\
+  l_l2 (fst (lin_partial_fit N aeqb s g ds rs cx)) = l_l2 s.
+Proof. exact @lin_partial_fit_never_fails. Qed.
+Print Assumptions C17_linear_partial_fit_never_raises_for_positive_lambda.
+
+(* non-vacuity: a LinUCB bandit (lambda = 2) over the rationals after fit, add_arm, partial_fit and a query satisfies the invariant; a
+   partial_fit with three instead of two columns is rejected and leaves the bandit as it was *)
+Definition q17 (z : Z) : Qc := Q2Qc (inject_Z z).
+Definition ex17_m0 : @mab Qc Z nat := mkMab (ILin (lin_init QcNum RUcb (q17 1) (q17 0) (q17 2) false false [1; 2]%Z)) false 7%nat.
+Definition ex17_o : @oracle Qc Z := mkOracle [] [] [] (fun _ _ => 0%nat) [].
+Definition ex17_ops : list (@op Qc Z) :=
+  [Fit [1; 2; 1]%Z [q17 1; q17 0; q17 2] (Some [[q17 1; q17 0]; [q17 0; q17 1]; [q17 1; q17 1]]) ex17_o;
+   AddArm 3%Z None;
+   PartialFit [3; 2]%Z [q17 2; q17 2] (Some [[q17 4; q17 1]; [q17 0; q17 3]]) ex17_o;
+   PredictExp (Some [[q17 1; q17 2]]) ex17_o].
+Definition ex17_m := state_after QcNum Z.eqb ToyRng ex17_m0 ex17_ops.
+Definition ex17_bad := PartialFit [1]%Z [q17 1] (Some [[q17 1; q17 2; q17 3]]) ex17_o.
+Example C17_linear_example :
+  lin_mab_inv QcNum ex17_m /\ m_fitted ex17_m = true /\
+  snd (step QcNum Z.eqb ToyRng ex17_m ex17_bad) = ORejected /\ fst (step QcNum Z.eqb ToyRng ex17_m ex17_bad) = ex17_m.
+Proof.
+  assert (Hrect : Forall (op_rect (R:=Qc) (A:=Z)) ex17_ops) by (repeat constructor).
+  assert (H0 : lin_mab_inv QcNum ex17_m0).
+  { apply (constructed_linear_bandit_inv QcNum ex17_m0 RUcb (q17 1) (q17 0) (q17 2) false [1; 2]%Z); try reflexivity.
+    repeat constructor; simpl; intuition discriminate. }
+  pose proof (run_preserves_lin_inv QcNum QcLaws Z.eqb ToyRng Z.eqb_eq ex17_ops ex17_m0 _ Hrect eq_refl H0) as H.
+  split; [exact H|]. split; [vm_compute; reflexivity|]. split; vm_compute; reflexivity.
+Qed.
 
